@@ -68,6 +68,7 @@ type Contract struct {
 	Callbacks     []string // externs: parameters that are callbacks invoked any number of times
 	HasAssigns    bool
 	Loops         map[int][]Clause
+	Steps         map[int][]Clause // two-state facts about one iteration: old(e) is e at the loop head of that iteration
 	Decreases     map[int][]Clause // loop variants: non-negative integer expressions that strictly decrease on every iteration
 	PanicsWhen    []Clause
 	Props         []string
@@ -410,6 +411,17 @@ func (db *SpecDB) LoadSpecFile(path string) error {
 					return fail(err)
 				}
 				body := strings.TrimSpace(rest[colon+1:])
+				if strings.HasPrefix(body, "step") {
+					c, err := parseClause(strings.TrimSpace(strings.TrimPrefix(body, "step")))
+					if err != nil {
+						return fail(err)
+					}
+					if cur.Steps == nil {
+						cur.Steps = map[int][]Clause{}
+					}
+					cur.Steps[n] = append(cur.Steps[n], c)
+					break
+				}
 				if strings.HasPrefix(body, "decreases") {
 					c, err := parseClause(strings.TrimSpace(strings.TrimPrefix(body, "decreases")))
 					if err != nil {
@@ -422,7 +434,7 @@ func (db *SpecDB) LoadSpecFile(path string) error {
 					break
 				}
 				if !strings.HasPrefix(body, "invariant") {
-					return fail(fmt.Errorf("expected 'invariant' or 'decreases'"))
+					return fail(fmt.Errorf("expected 'invariant', 'step' or 'decreases'"))
 				}
 				c, err := parseClause(strings.TrimSpace(strings.TrimPrefix(body, "invariant")))
 				if err != nil {
